@@ -1814,6 +1814,14 @@ func f19numbers(e *Env) error {
 			if err := b.add(cn); err != nil {
 				return err
 			}
+			if p == 0 {
+				// a number of decimals outside what can be printed: negative means none, more than a million is an error
+				for _, d := range []int64{-1, -3, -9223372036854775807, 1000001, 9223372036854775807} {
+					if err := b.add(f19case{F: "number_format", V: v, Args: []f19v{f19int(d), f19str("."), f19str(",")}, Tag: tag}); err != nil {
+						return err
+					}
+				}
+			}
 			if v.K == "float" && len(v.M)+p <= 15 {
 				pipe = append(pipe, map[string]any{"m": v.M, "k": v.E, "p": p})
 				pipeText = append(pipeText, fmt.Sprintf("%s p=%d", v.decString(), p))
